@@ -113,6 +113,18 @@ pub fn judge_plain(input: &[u8], acc: &mut Acc) {
             Ok(Err(e)) => Ok(Err(v1_err_name(e))),
         };
         compare(acc, "v1::Header::try_from(&str)", input, &o, got);
+        // the FromStr entry points are v1 text entry points too
+        if input.len() <= 256 {
+            let rh = guard(|| s.parse::<v1::Header<'static>>());
+            acc.eval(1);
+            acc.validated(1);
+            let got = match &rh {
+                Err(p) => Err(p),
+                Ok(Ok(h)) => Ok(Ok(h)),
+                Ok(Err(e)) => Ok(Err(v1_err_name(e))),
+            };
+            compare(acc, "str::parse::<v1::Header>()", input, &o, got);
+        }
     }
 }
 
